@@ -86,6 +86,10 @@ class C07System(BuilderSystem):
         for t in ("bed", "hotend", "chamber"):
             ops += [[f"set_{t}_temperature", [g2]], [f"set_{t}_temperature", [g0]],
                     ["halt", [f"wait-for-{t}"], {"S": g1}], ["halt", [f"wait-for-{t}"], {"r": g3}], ["halt", [f"wait-for-{t}"]]]
+        # halts that are not temperature waits, carrying S / R / P words (e.g. Marlin's timed pause M0 S5)
+        for mode, kw in (("pause", {"S": g1}), ("pause", {"P": g3}), ("optional-pause", {"S": g2}), ("end-without-reset", {"R": g1}),
+                         ("end-with-reset", {"S": g3}), ("pallet-exchange", {"s": g1}), ("wait-for-motion", {"R": g2}), ("off", {"S": g1})):
+            ops.append(["halt", [mode], kw])
         ops += [["set_distance_mode", ["relative"]], ["set_distance_mode", ["absolute"]],
                 ["set_extrusion_mode", ["relative"]], ["set_extrusion_mode", ["absolute"]],
                 ["set_feed_mode", ["1/time"]], ["set_feed_mode", ["units/min"]], ["set_feed_mode", ["units/rev"]],
